@@ -8,6 +8,7 @@ M=$(cd "$1" && pwd); shift
 PROPS="$*"
 NAME=$(basename "$(dirname "$M")")_$(basename "$M")
 WT=/tmp/mut/eval_$NAME
+mkdir -p /tmp/mut   # scratch: logs and the worktree live here, nothing a registered command needs
 export PATH=/root/go/pkg/mod/golang.org/toolchain@v0.0.1-go1.25.5.linux-amd64/bin:$PATH GOFLAGS=-mod=mod GOPROXY=off
 git -C /repo worktree remove --force "$WT" >/dev/null 2>&1
 git -C /repo worktree add -q --detach "$WT" HEAD || exit 2
